@@ -21,8 +21,8 @@ VIT_W = [-math.inf, 0.0, -1.0, -2.0, -3.0]
 
 def gen_shape(rng):
     recursive = rng.random() < 0.5
-    shape = gen.random_shape(rng, recursive=recursive, n_nts=(1, 3), rules_per_nt=(1, 2), n_nodes=(0, 2), n_edges=(0, 3),
-                             max_arity=2, start_arity=(0, 2), dom_sizes=(1, 2, 3), p_isolated=0.3, p_ruleless=0.05,
+    shape = gen.random_shape(rng, recursive=recursive, n_nts=(1, 4), rules_per_nt=(1, 3), n_nodes=(0, 3), n_edges=(0, 4),
+                             max_arity=2, start_arity=(0, 2), dom_sizes=(1, 2, 3, 2), p_isolated=0.3, p_ruleless=0.2,
                              weights=lambda r: r.choice(VIT_W), max_cells=200)
     return shape
 
@@ -60,7 +60,7 @@ def derive_weight(fgg, d):
 
 
 def run(ctx):
-    n = 70 if ctx.quick else 1200
+    n = 160 if ctx.quick else 1500
     reqs, meta = [], []
     for k in range(n):
         shape = gen_shape(ctx.rng)
